@@ -35,9 +35,15 @@ fn c05_cfg(tier: Tier, index: u64) -> HistCfg {
             ..Default::default()
         },
         target_pct: 30,
+        prelude: Prelude::None,
+        phases: false,
+        special_keys: false,
+        default_table: false,
     };
     if index % 50 == 13 {
         make_dense(&mut c, tier == Tier::Thorough);
+    } else {
+        rare_regions(&mut c, index);
     }
     c
 }
@@ -68,7 +74,7 @@ fn c06_cfg(tier: Tier, index: u64) -> HistCfg {
     w.is_empty = 0;
     w.stats = 2;
     w.reopen = 1;
-    HistCfg {
+    let mut c = HistCfg {
         kts: vec![Kt::Bytes, Kt::String, Kt::U64, Kt::Vu64],
         key: if index % 3 == 0 { KeyProfile::Medium } else { KeyProfile::Short },
         n_keys: if index % 4 == 1 { 10..=120 } else { 1..=12 },
@@ -90,7 +96,18 @@ fn c06_cfg(tier: Tier, index: u64) -> HistCfg {
             ..Default::default()
         },
         target_pct: 20,
+        prelude: Prelude::None,
+        phases: false,
+        special_keys: false,
+        default_table: false,
+    };
+    // files beyond 2 MiB, phased workloads, keys with particular byte patterns
+    rare_regions(&mut c, index);
+    if c.prelude != Prelude::None {
+        // decoding multi-megabyte files after every call: keep these histories short
+        c.ops.n_ops = 0..=30;
     }
+    c
 }
 
 const C06_RULE: &str = "seeded random update histories on small maps with flush + independent decode after EVERY call (sizes biased to the shared large free list 1024..20000 and to class edges), plus cyclic workloads (a generated cycle of 5-40 calls repeated 20-120 times). Oracle per decoded state: slots tile [192, EOF) of the key and value file, every slot is live exactly once or on exactly one free list of its class, legal sizes; per call: a file is extended by a slot of size k only if no free slot acceptable for k (same exact class / large-list entry >= k) was free both before and after the call; per exact slot class s (16..896): slots(s) <= peak simultaneously live(s) + max(1, most allocations observed in one call); statistics calls are issued in the histories and must return (watchdog). evaluations counts histories, decoded_states counts images. Non-trivial: a free slot was reused (label free_slot_reused / large_slot_reused); distinct by case digest.";
@@ -226,7 +243,7 @@ fn c02_cfg(tier: Tier, index: u64) -> HistCfg {
     w.handles = 4;
     w.iter = 2;
     w.flush = 1;
-    HistCfg {
+    let mut c = HistCfg {
         kts: Kt::ALL.to_vec(),
         key: KeyProfile::Medium,
         n_keys: 1..=60,
@@ -244,7 +261,13 @@ fn c02_cfg(tier: Tier, index: u64) -> HistCfg {
         },
         obs: Obs::default(),
         target_pct: 10,
-    }
+        prelude: Prelude::None,
+        phases: false,
+        special_keys: false,
+        default_table: false,
+    };
+    rare_regions(&mut c, index);
+    c
 }
 
 pub fn c02() -> HistProp {
@@ -290,10 +313,17 @@ fn c04_cfg(tier: Tier, index: u64) -> HistCfg {
         },
         obs: Obs::default(),
         target_pct: 50,
+        prelude: Prelude::None,
+        phases: false,
+        special_keys: false,
+        default_table: false,
     };
     if index % 40 == 13 {
         make_dense(&mut c, tier == Tier::Thorough);
         c.ops.w.iter = 3;
+    } else {
+        c.phases = index % 10 == 4;
+        c.special_keys = index % 8 == 3;
     }
     c
 }
@@ -324,7 +354,7 @@ fn c14_cfg(tier: Tier, index: u64) -> HistCfg {
     w.bulk = 40;
     w.strs = 10;
     w.reopen = 1;
-    HistCfg {
+    let mut c = HistCfg {
         kts: Kt::ALL.to_vec(),
         key: KeyProfile::Medium,
         n_keys: if index % 3 == 0 { 40..=250 } else { 3..=40 },
@@ -333,7 +363,7 @@ fn c14_cfg(tier: Tier, index: u64) -> HistCfg {
         max_buckets: 4096,
         ops: OpsCfg {
             w,
-            val: ValProfile::Mixed,
+            val: if index % 3 == 0 { ValProfile::Small } else if index % 10 == 1 { ValProfile::Big } else { ValProfile::Mixed },
             n_ops: tier.pick(0..=60, 0..=150),
             reopen_params: None,
             reopen_child: false,
@@ -342,14 +372,21 @@ fn c14_cfg(tier: Tier, index: u64) -> HistCfg {
         },
         obs: Obs::default(),
         target_pct: 10,
-    }
+        prelude: Prelude::None,
+        phases: false,
+        special_keys: false,
+        default_table: false,
+    };
+    c.special_keys = index % 8 == 3;
+    let _ = tier;
+    c
 }
 
 pub fn c14() -> HistProp {
     HistProp {
         id: "C14",
         level: "exploration",
-        rule: "seeded random histories on all key types in which 40% of the calls are batches of 0..200 keys in arbitrary order, present and absent, with repeats where the statement allows them (bulk_get/bulk_get_string: any; bulk_delete, bulk_put, bulk_put_string: repeated keys removed by the interpreter; put_from_iter: any, order matters); values are raw byte patterns, i.e. mostly invalid UTF-8 for the *_string readers. Oracle: position-wise equality with the model's element-wise results, full comparison of the map with the model after every writing batch, string forms == byte forms composed with from_utf8_lossy. Non-trivial: the history has an unsorted batch of >= 3 keys mixing present and absent keys; distinct by case digest.",
+        rule: "seeded random histories on all key types in which 40% of the calls are batches of 0..200 keys (rarely 4000-9000 pairs) in arbitrary order, present and absent, with repeats where the statement allows them (bulk_get/bulk_get_string: any; bulk_delete, bulk_put, bulk_put_string: repeated keys removed by the interpreter; put_from_iter: any, order matters); values are raw byte patterns (mostly invalid UTF-8) and, for the *_string writers, text of 1-4 byte characters with stray invalid bytes, up to beyond 8 MiB in every 10th case. Oracle: position-wise equality with the model's element-wise results, full comparison of the map with the model after every writing batch, string forms == byte forms composed with from_utf8_lossy. Non-trivial: the history has an unsorted batch of >= 3 keys mixing present and absent keys; distinct by case digest.",
         assumptions: &[],
         cfg: c14_cfg,
         n: |t| t.pick(12000, 120000),
